@@ -3,6 +3,7 @@ CONSTANTS
  ByteAlpha = {0, 1, 32, 37, 43, 65, 126, 128, 251, 255}
  MaxBytes = 5
  RandMax = 1024
+ Stride = 8
  ShaMax = 400
  B64Alpha = {65, 47, 61, 32, 33}
  MaxB64 = 8
